@@ -729,8 +729,13 @@ class StoreCache(CacheMixin):
                 return None
 
     def _load_metadata(self, state_path):
-        if self.storage.contains(state_path) and not self.storage.is_dir(state_path):
-            return self.storage.get_metadata(state_path)
+        try:
+            if self.storage.contains(state_path) and not self.storage.is_dir(state_path):
+                return self.storage.get_metadata(state_path)
+        except Exception:
+            # e.g. the entry was removed concurrently between the two store calls: a miss, not a failure
+            logging.exception(f"Cache failed to read metadata {state_path}")
+        return None
 
     def get_metadata(self, key):
         return self._load_metadata(self.to_path(key))
